@@ -1084,8 +1084,10 @@ Error query_rw_info(Arch arch, const BaseInst& inst, const Operand_* operands, s
           }
 
           if (o0.is_gp() && o1.is_segment_reg()) {
-            out->_operands[0].reset(W | RegM, native_gp_size);
+            // The write follows the operand size: `mov r16, sreg` keeps bits 63:16, `mov r32, sreg` zero extends.
+            out->_operands[0].reset(W | RegM, operands[0].x86_rm_size());
             out->_operands[0].set_rm_size(2);
+            rw_zero_extend_gp(out->_operands[0], operands[0].as<Gp>(), native_gp_size);
             out->_operands[1].reset(R, 2);
             return Error::kOk;
           }
